@@ -105,6 +105,31 @@ func loopsOf(fn *ssa.Function) []*Loop {
 	return out
 }
 
+// enclosingLoop returns the smallest loop whose iteration b belongs to, counting
+// blocks that leave the loop (break/return) as part of the iteration: the header
+// dominates b and b is not dominated by a normal exit target of the header.
+func enclosingLoop(loops []*Loop, b *ssa.BasicBlock) *Loop {
+	var best *Loop
+	for _, l := range loops {
+		if !l.Header.Dominates(b) {
+			continue
+		}
+		in := l.Body[b]
+		if !in {
+			in = true
+			for _, s := range l.Header.Succs {
+				if !l.Body[s] && s.Dominates(b) {
+					in = false
+				}
+			}
+		}
+		if in && (best == nil || len(l.Body) < len(best.Body)) {
+			best = l
+		}
+	}
+	return best
+}
+
 // innermostLoop returns the smallest loop containing b, or nil.
 func innermostLoop(loops []*Loop, b *ssa.BasicBlock) *Loop {
 	var best *Loop
@@ -453,6 +478,14 @@ func (en *enumerator) walk(fn *ssa.Function, b *ssa.BasicBlock, pred *ssa.BasicB
 			return
 		}
 		blocks = append(append([]*ssa.BasicBlock(nil), blocks...), b)
+		// values defined in this block are recomputed: forget what an earlier visit learned
+		for _, in := range b.Instrs {
+			if v, ok := in.(ssa.Value); ok {
+				if _, isPhi := in.(*ssa.Phi); !isPhi {
+					delete(env.consts, v)
+				}
+			}
+		}
 		// phis: evaluate by predecessor
 		if pred != nil {
 			pi := -1
